@@ -438,13 +438,95 @@ def gen_frag_expr(rng, g, vs, depth):
     return [rng.choice(["&&", "||"]), gen_frag_expr(rng, g, vs, depth + 1), gen_frag_expr(rng, g, vs, depth + 1)]
 
 
+def gen_td_expr(rng, g, depth):
+    """filter expressions of the Lean fragment over ANY variable of the query (in scope or not, bound or not)"""
+    x = rng.random()
+    if x < 0.3 or depth >= 2:
+        a = g.var() if rng.random() < 0.8 else rng.choice(g.subs + g.objs)
+        b = g.var() if rng.random() < 0.4 else rng.choice(g.subs + g.objs)
+        return ["sameTerm", a, b]
+    if x < 0.5:
+        return ["bound", g.var()]
+    if x < 0.77:
+        return ["!", gen_td_expr(rng, g, depth + 1)]
+    return [rng.choice(["&&", "||"]), gen_td_expr(rng, g, depth + 1), gen_td_expr(rng, g, depth + 1)]
+
+
+def td_bgp(rng, g, lo, hi):
+    ts = []
+    for _ in range(rng.randint(lo, hi)):
+        s_ = g.var() if rng.random() < 0.9 else rng.choice(g.subs)
+        p_ = g.var() if rng.random() < 0.1 else rng.choice(g.preds)
+        o_ = g.var() if rng.random() < 0.75 else rng.choice(g.objs)
+        ts.append([s_, p_, o_])
+    return {"k": "bgp", "ts": ts}
+
+
+def gen_td_group(rng, g, depth, top=False):
+    """group of the top-down Lean model: BGPs, joined groups, UNION, OPTIONAL (with and without a filter of its own),
+    MINUS, FILTER, BIND (variable or constant), VALUES (with UNDEF), GRAPH (constant, variable, not a graph)"""
+    els = [td_bgp(rng, g, 1, 2)] if (top or rng.random() < 0.8) else []
+    kinds = [("bgp", 2), ("grp", 3), ("union", 3), ("optional", 4), ("minus", 3), ("filter", 3), ("bind", 2),
+             ("values", 2), ("graph", 3 if g.ds else 0)]
+    kinds = [(k, w) for k, w in kinds if w]
+    for _ in range(rng.choice([0, 1, 1, 2, 2, 3] if top else [0, 0, 1, 1, 2])):
+        k = rng.choices([k for k, _ in kinds], [w for _, w in kinds])[0]
+        if depth <= 0 and k in ("grp", "union", "optional", "minus", "graph"):
+            k = rng.choice(["bgp", "filter", "values"])
+        if k == "bgp":
+            els.append(td_bgp(rng, g, 1, 2))
+        elif k == "grp":
+            els.append({"k": "grp", "g": gen_td_group(rng, g, depth - 1)})
+        elif k == "union":
+            els.append({"k": "union", "gs": [gen_td_group(rng, g, depth - 1) for _ in range(rng.choice([2, 2, 3]))]})
+        elif k == "optional":
+            els.append({"k": "optional", "g": gen_td_group(rng, g, depth - 1)})
+        elif k == "minus":
+            els.append({"k": "minus", "g": gen_td_group(rng, g, depth - 1)})
+        elif k == "filter":
+            els.append({"k": "filter", "e": gen_td_expr(rng, g, 0)})
+        elif k == "bind":
+            used = all_vars(els)
+            free = [v for v in g.vars if v not in used]
+            if free:       # (the variable of a BIND must not have been used in the group before it)
+                src = g.var() if rng.random() < 0.5 else rng.choice(g.subs + g.objs)
+                els.append({"k": "bind", "e": src, "v": rng.choice(free)})
+        elif k == "values":
+            vs = rng.sample(g.vars, rng.choice([1, 1, 2]))
+            pool = g.subs + g.objs
+            rows = [[(None if rng.random() < 0.15 else rng.choice(pool)) for _ in vs] for _ in range(rng.choice([1, 2, 2, 3]))]
+            els.append({"k": "values", "vs": vs, "rows": rows})
+        elif k == "graph":
+            t = rng.choice([g.var(), g.var(), g.var(), "g1", "g1", "g2", "g3", "a"])
+            inner = gen_td_group(rng, g, depth - 1) if rng.random() < 0.5 else {"k": "group", "els": [td_bgp(rng, g, 1, 1)]}
+            els.append({"k": "graph", "t": t, "g": inner})
+    return {"k": "group", "els": els}
+
+
+def td_star_vars(node, out=None):
+    """`_findVars`: the columns of SELECT * — every variable written in the WHERE clause, of a BIND only its target"""
+    out = set() if out is None else out
+    if isinstance(node, dict):
+        if node.get("k") == "bind":
+            out.add(node["v"])
+            return out
+        for v in node.values():
+            td_star_vars(v, out)
+    elif isinstance(node, list):
+        for v in node:
+            td_star_vars(v, out)
+    elif is_var(node):
+        out.add(node)
+    return out
+
+
 def gen_case(rng, tier, i):
     """bgp / frag cases (the ones the Lean model also evaluates) are generated here; the others are generated
     inside the worker from a seed (`materialize`) because choosing a query with a non-empty answer needs
     evaluations, which would serialise the run if done in the parent process."""
-    stream = rng.choices(["rewrite", "init", "prepared", "store", "bgp", "frag", "sel", "nsctx"],
-                         [28, 11, 14, 15, 10, 9, 7, 6])[0]
-    if stream in ("bgp", "frag", "sel"):
+    stream = rng.choices(["rewrite", "init", "prepared", "store", "bgp", "frag", "sel", "nsctx", "td"],
+                         [28, 11, 14, 15, 9, 8, 6, 6, 12])[0]
+    if stream in ("bgp", "frag", "sel", "td"):
         while True:
             try:
                 return _gen_case(rng, tier, i, stream)
@@ -523,6 +605,38 @@ def _gen_case(rng, tier, i, stream):
             else rng.sample(g.vars, rng.choice([1, 2]))
         init = [[v, rng.choice(g.subs + g.objs)] for v in sorted(set(ivars))]
         return {"stream": "sel", "data": data, "ds": False, "q": q, "seed": seed, "inits": init, "nvars": len(g.vars)}
+    if stream == "td":
+        ds = rng.random() < 0.4
+        data = gen_data(rng, ds)
+        if ds:      # a default graph dense enough for the outermost BGP: most named-graph triples are in it as well
+            have = {tuple(r[:3]) for r in data if r[3] == 0}
+            for r in list(data):
+                if r[3] != 0 and tuple(r[:3]) not in have and rng.random() < 0.7:
+                    have.add(tuple(r[:3]))
+                    data.append(r[:3] + [0])
+        g = Gen(rng, data, ds, nvars=rng.choice([3, 4]))
+        where = gen_td_group(rng, g, 2, top=True)
+        star = sorted(td_star_vars(where))
+        q = {"distinct": False, "proj": (rng.sample(g.vars, rng.randint(1, len(g.vars))) if rng.random() < 0.4 else None),
+             "where": where, "group": None, "count": None, "order": None}
+        case = {"stream": "td", "data": data, "ds": ds, "q": q, "seed": seed, "nvars": len(g.vars), "star": star}
+        if rng.random() < 0.5:
+            ivars = rng.sample(g.vars, rng.choice([1, 1, 2]))
+            pool = [t for t in g.subs + g.objs if t != "_n"] + (["g1"] if ds else [])
+            inits = []
+            for v in sorted(ivars):
+                t = rng.choice(pool)
+                # mostly a value the variable can take: from a data triple fitting a pattern of the outermost BGP
+                fits = [(tp, row) for tp in where["els"][0]["ts"] for row in data
+                        if v in tp and (is_var(tp[1]) or tp[1] == row[1])]
+                if fits and rng.random() < 0.7:
+                    tp, row = rng.choice(fits)
+                    t = row[tp.index(v)]
+                    if t == "_n":
+                        t = rng.choice(pool)
+                inits.append([v, t])
+            case["inits"] = inits
+        return case
     if stream == "frag":
         data = gen_data(rng, False)
         g = Gen(rng, data, False, nvars=3)
@@ -1432,6 +1546,29 @@ def run_impl(case):
                 viol.append("prepared: prepared fragment query on %s gives %s, fresh gives %s"
                             % (nm, _short(r), _short(fresh[nm])))
 
+    elif stream == "td":
+        vs = VARS[: case["nvars"]]
+        inits = case.get("inits") or []
+        ib = {v[1:]: TERMS[t] for v, t in inits} or None
+        a = evaluate(base_g, q, init=ib)
+        obs.append(rows_line(a, vs))
+        stats["td_with_init" if ib else "td_no_init"] = 1
+        if a[0] == "ok" and a[2]:
+            stats["td_nonempty"] = 1
+        if a[0] == "err":
+            stats["td_error"] = 1
+        # the same query with every BGP shuffled and the variables renamed consistently, same initBindings
+        # (renamed): the theorems `td_bgp_reorder` / `td_rename_equivariant`, asked of the implementation
+        q2, colmap, mode, sseed = apply_rewrite(q, "bgp_shuffle", seed)
+        q3, colmap3, mode3, sseed3 = apply_rewrite(q2, "rename", seed + 1)
+        inv = {v: k for k, v in (colmap3 or {}).items()}
+        ib3 = {inv.get(v, v)[1:]: TERMS[t] for v, t in inits} or None
+        b = evaluate(base_g, q3, mode3, sseed3, colmap3, init=ib3)
+        compared += 1
+        if a != b:
+            viol.append("td-rewrite: BGPs shuffled and variables renamed [%s] with initBindings %s gives %s, the "
+                        "query as written with %s gives %s" % (query_text(q3, mode3, sseed3), ib3, _short(b), ib, _short(a)))
+
     elif stream == "nsctx":
         # the text uses `ux:` without declaring it; the SAME text is evaluated, as a string, against graphs /
         # initNs that give `ux:` different namespaces, one after the other in this process.  Each answer must
@@ -1635,10 +1772,102 @@ def _group_tokens(g, vs):
     return toks
 
 
+def _td_alg(g):
+    """the algebra rdflib builds for a group (translateGroupGraphPattern, then simplify), as nested tuples:
+    FILTERs collected first, adjacent triple blocks merged, left-deep from an empty BGP, joins with an empty BGP
+    dropped"""
+    filt = None
+    parts = []
+    for e in g["els"]:
+        k = e["k"]
+        if k == "filter":
+            filt = e["e"] if filt is None else ["&&", filt, e["e"]]
+        elif k == "bgp" and parts and parts[-1]["k"] == "bgp":
+            parts[-1] = {"k": "bgp", "ts": parts[-1]["ts"] + e["ts"]}
+        else:
+            parts.append(e)
+
+    def join(a, b):
+        if a[0] == "bgp" and not a[1]:
+            return b
+        if b[0] == "bgp" and not b[1]:
+            return a
+        return ("join", a, b)
+    G = ("bgp", [])
+    for e in parts:
+        k = e["k"]
+        if k == "bgp":
+            G = join(G, ("bgp", list(e["ts"])))
+        elif k == "optional":
+            A = _td_alg(e["g"])
+            G = ("ljoin", A[1], G, A[2]) if A[0] == "filter" else ("ljoin", None, G, A)
+        elif k == "minus":
+            G = ("minus", G, _td_alg(e["g"]))
+        elif k == "grp":
+            G = join(G, _td_alg(e["g"]))
+        elif k == "union":
+            U = _td_alg(e["gs"][0])
+            for b in e["gs"][1:]:
+                U = ("union", U, _td_alg(b))
+            G = join(G, U)
+        elif k == "graph":
+            G = join(G, ("graph", e["t"], _td_alg(e["g"])))
+        elif k == "values":
+            G = join(G, ("values", e["vs"], e["rows"]))
+        elif k == "bind":
+            G = ("extend", e["v"], e["e"], G)
+        else:
+            raise ValueError(k)
+    if filt is not None:
+        G = ("filter", filt, G)
+    return G
+
+
+def _td_tokens(a, vs):
+    k = a[0]
+    if k == "bgp":
+        out = ["bgp", str(len(a[1]))]
+        for s, p, o in a[1]:
+            out += [_pt(s, vs), _pt(p, vs), _pt(o, vs)]
+        return out
+    if k in ("join", "union", "minus"):
+        return [k] + _td_tokens(a[1], vs) + _td_tokens(a[2], vs)
+    if k == "ljoin":
+        return ["ljoin"] + (["none"] if a[1] is None else ["e"] + _expr_tokens(a[1], vs)) \
+            + _td_tokens(a[2], vs) + _td_tokens(a[3], vs)
+    if k == "filter":
+        return ["filter"] + _expr_tokens(a[1], vs) + _td_tokens(a[2], vs)
+    if k == "extend":
+        return ["extend", _pt(a[1], vs), _pt(a[2], vs)] + _td_tokens(a[3], vs)
+    if k == "graph":
+        return ["graph", _pt(a[1], vs)] + _td_tokens(a[2], vs)
+    if k == "values":
+        out = ["values", str(len(a[2]))]
+        for r in a[2]:
+            d = dict(zip(a[1], r))
+            out += [("-" if d.get(v) is None else str(TERM_NUM[d[v]])) for v in vs]
+        return out
+    raise ValueError(k)
+
+
 def model_lines(case):
     stream = case["stream"]
     if "lazy" in case:
         return []
+    if stream == "td":
+        q, data = case["q"], case["data"]
+        vs = VARS[: case["nvars"]]
+        lits = [TERM_NUM[k] for k in LITS]
+        lines = ["reset %d %d %d" % (len(vs), min(lits), max(lits))]
+        for s, p, o, c in data:
+            lines.append("quad %d %d %d %d" % (TERM_NUM[s], TERM_NUM[p], TERM_NUM[o],
+                                               TERM_NUM[GRAPH_IRI[c]] if (c and case.get("ds")) else 0))
+        lines.append("p " + " ".join(_td_tokens(_td_alg(q["where"]), vs)))
+        for v, t in case.get("inits") or []:
+            lines.append("init %d %d" % (vs.index(v), TERM_NUM[t]))
+        pv = case["star"] if q["proj"] is None else q["proj"]
+        lines.append("evaltd %d %s" % (len(pv), " ".join(str(vs.index(v)) for v in pv)))
+        return lines
     if stream not in ("bgp", "frag", "sel"):
         return []
     q, data = case["q"], case["data"]
